@@ -196,6 +196,16 @@ def gen_document(odfdo, spec):
             pass
         doc.meta.title = "generated %d" % spec["seed"]
         doc.meta.set_user_defined_metadata("k", "v")
+        # meta elements as other producers write them: the xlink attributes that have defaults are absent (F55)
+        from datetime import timedelta
+        doc.meta.set_auto_reload(timedelta(seconds=30), "http://example.org/next")
+        doc.meta.set_template(None, "http://example.org/t.ott", "tmpl")
+        doc.meta.set_hyperlink_behaviour("_blank", "new")
+        for node in doc.meta._XmlPart__tree.iter():
+            if isinstance(node.tag, str) and node.tag.split("}")[1] in ("auto-reload", "template"):
+                for a in list(node.attrib):
+                    if a.split("}")[1] in ("actuate", "show", "type"):
+                        del node.attrib[a]
         return doc
     if spec["gen"] == "sheet":
         doc = Document("spreadsheet"); body = doc.body; body.clear()
